@@ -10,6 +10,14 @@ NOTE = ("Trusted base: go/types (type checking and constant evaluation), golang.
         "The check decides the named structural clauses only; the value-level remainder listed in the evidence under not_covered is not claimed.")
 
 CLAIMED = {
+ "C08": dict(level="other",
+   technique="static analysis: channel-discipline rules over the SSA of package kmipserver (close-by-sole-sender, buffered reply hand-off, select-with-Done release of every blocking operation), deferred-recover dominance around handler invocation, path counting of sends in the connection loop",
+   text="Decides the structural conditions under which no client behaviour or handler outcome can crash, wedge or leak the server: no channel is closed by anyone but its sole sender (the racy close that crashed the process is repaired and guarded), the per-message reply channel is buffered so the write loop cannot be left blocked, every handler invocation is dominated by a deferred recover() that yields a failed item, each path around the connection loop handles one request and sends exactly one response with no goroutine spawned on the way and a single stream writer (order by construction), an undecodable but framed request gets one Invalid Message response without teardown, and every blocking channel operation has a <-ctx.Done() alternative with terminate cancelling first. Deadlock-freedom and liveness under a scheduler are not decided.",
+   ref="§4 C08"),
+ "C16": dict(level="other",
+   technique="static analysis: call-order and dominance checks on Shutdown/Serve/handleConn, WaitGroup accounting (Add before go, deferred Done first, Wait reachable from the deferred Close), goroutine join inventory",
+   text="Decides hook pairing and drain structure for every schedule at once: the terminate hook is deferred exactly once, only on the connect hook's success edge and with its context, after which handlers run synchronously in the same function; every connection goroutine is counted before it starts and un-counted by its first deferred call; Shutdown closes the listener, cancels the receive context, arms a 3 s timer that only cancels, waits, then cancels and returns; the loop waits on the receive context and contexts derive from the root; and every goroutine the package starts is joined on the way (the missing join of the per-connection loops is repaired and guarded). Timing and per-request outcomes under a real scheduler are not decided.",
+   ref="§4 C16"),
  "C04": dict(level="other",
    technique="static analysis: writer/reader lexical agreement rules over the XML/JSON codecs (parse-call base/width dataflow, forbidden Go-quoting in the JSON writer, unit-of-duration and separator/layout sibling checks)",
    text="Decides the structural part of XML/JSON interchangeability: for every parse call of the text readers, a hexadecimal spelling is read with a parser that covers every bit pattern the writers can emit for that width, a 0x prefix is followed by a base-16 parse, durations are seconds times time.Second on every return, mask separators and date layouts written are the ones read, enum/mask lookups default the tag identically on both sides, and the JSON writer never uses Go-syntax quoting (strings go through encoding/json; raw names are registry names proven safe by C17.N3). Four defects found this way are repaired and guarded. Byte-identity of the binary re-encoding and reproduction of foreign XML need execution and are not claimed.",
